@@ -6,6 +6,7 @@ from hypothesis import strategies as st
 
 from harness.loader import load
 from harness.runner import Part
+from harness import build as B
 from harness import values as V
 from harness import relational as R
 from harness.refmodel import freeze, same
@@ -136,8 +137,8 @@ def run_ops(case, ctx):
     n = len(a)
     if fam == "date_int":
         return run_date_int(case, ctx)
-    va = S.Vector(list(a)) if n else S.Vector([])
-    vb = S.Vector(list(b)) if n else S.Vector([])
+    va = B.vector(a) if n else S.Vector([])
+    vb = B.vector(b) if n else S.Vector([])
     snap_a, snap_b = [freeze(x) for x in va], [freeze(x) for x in vb]
     typed = va.schema() is not None and va.schema().kind is not object
     for name, op in _ops_for(fam):
@@ -357,7 +358,7 @@ def run_methods(case, ctx):
     T = TYPES[k]
     if vals and all(x is None for x in vals):
         return          # serif types an all-None vector as object: methods are not reachable there
-    v = S.Vector(list(vals)) if vals else S.Vector([], dtype=T)
+    v = B.vector(vals) if vals else S.Vector([], dtype=T)
     snap = [freeze(x) for x in v]
     names = sorted(x for x in dir(T) if not x.startswith("_") and x not in EXCLUDED)
     picks = [tuple(p) for p in case["picks"]]
